@@ -22,7 +22,16 @@ import (
 	"mltwist/verifh/uichk"
 )
 
-func binFile() string { return filepath.Join(os.Getenv("VERIF_DIR"), "work", "mltwist-c22") }
+// binFile is private to one run (parent pid in the name, handed to the shards through the
+// environment): concurrent runs against different trees must not share the binary.
+func binFile() string {
+	if p := os.Getenv("VERIF_BIN_C22"); p != "" {
+		return p
+	}
+	p := filepath.Join(os.Getenv("VERIF_DIR"), "work", fmt.Sprintf("mltwist-c22-%d", os.Getpid()))
+	os.Setenv("VERIF_BIN_C22", p)
+	return p
+}
 
 func parentSetup(string) error {
 	repo := os.Getenv("VERIF_REPO_DIR")
